@@ -1,7 +1,7 @@
 /-
   Gozod.Model.Complex — `ParseComplex` and `ParseComplexStrict` (internal/engine/parser.go:107-188 after
   692881a, with `processModifiersCore` modifiers.go:42-91, `parseComplexValue` :859-884,
-  `handleNilComplex` :268-283, `validatePointer` :949-972, `validateValue` :891-909,
+  `handleNilComplex` :268-283, `validatePointer` :949-976 (after 49e6e91), `validateValue` :891-909,
   `applyTransformIfPresent` modifiers.go:98-107), the `legacy…` `ParseComplexStrict` of the parent of
   692881a, and the `Must*` wrapper every schema type carries.
 
@@ -97,8 +97,21 @@ def handleNilComplex (env : CEnv P O T V E) (c : CCfg P O T V) : Res V E :=
   | .handled r => r
   | _ => .err env.typeErr
 
-/-- `validatePointer`. -/
+/-- `validatePointer` (after 49e6e91): the validator decides first — container-level checks and every member
+    schema; only when it accepted does an overwrite check get its pass over the pointer itself. -/
 def validatePointer (env : CEnv P O T V E) (c : CCfg P O T V) (v : V) : Res V E :=
+  if !c.hasValidator then .ptr v
+  else
+    match env.validate c.i.checks v with
+    | .error e => .err e
+    | .ok v' =>
+      match (if hasOverwrite c.i.checks then env.firstPass c.i.checks v else none) with
+      | some v'' => .ptr v''
+      | none => .ptr v'
+
+/-- `validatePointer` before 49e6e91: the pointer pass of an overwrite check came first and, when it yielded a
+    new pointer, the validator (hence every member schema) was never consulted. -/
+def legacyValidatePointer (env : CEnv P O T V E) (c : CCfg P O T V) (v : V) : Res V E :=
   if !c.hasValidator then .ptr v
   else
     match (if hasOverwrite c.i.checks then env.firstPass c.i.checks v else none) with
